@@ -1,6 +1,7 @@
 import PersimVerif.Props.C01
 import PersimVerif.Props.C02
 import PersimVerif.Props.C07
+import PersimVerif.Lemmas.MatchingReindex
 
 /-!
 # C07 at the level of the *models of the code* (C01 ∘ C07, C02 ∘ C07)
@@ -119,6 +120,359 @@ theorem model_ws_triangle {l : Wasserstein.Mat ℝ → List (Nat × Nat)} (hl : 
     w13 ≤ w12 + w23 :=
   wasserstein_triangle_ineq _ _ _ (fun j => h2 _ (List.get_mem _ j)) (wsReturns_isWs hl h12)
     (wsReturns_isWs hl h23) (wsReturns_isWs hl h13)
+
+/-! ## The remaining laws of the statement, for what the MODELS return
+
+`Props/C07.lean` states the laws for diagrams indexed by arbitrary types (`Option N` = one more point,
+`S ∘ e.symm` = reordered).  The models consume *lists* of raw points `(b, some d)` / `(b, none)`; the
+bridge is `Lemmas/MatchingReindex.lean` (the specification value does not depend on the indexing).
+Each law below is a corollary of `bnReturns_isBn` / `wsReturns_isWs` and holds for diagrams of any
+size, for any oracles / solvers honouring their contracts (two different ones where two runs occur).
+Points with a non-finite death (`none`) may be present everywhere: they are dropped by both runs. -/
+
+/-! ### list-level bridges -/
+
+theorem isBn_reindex {M M' N N' : Type} (eM : M ≃ M') (eN : N ≃ N') {S : M → Pt} {S' : M' → Pt}
+    {T : N → Pt} {T' : N' → Pt} (hS : ∀ i, S' (eM i) = S i) (hT : ∀ j, T' (eN j) = T j) (d : ℝ) :
+    IsBn S' T' d ↔ IsBn S T d :=
+  isBottleneck_reindex_iff eM eN
+    (fun i j => by show linf (S' (eM i)) (T' (eN j)) = linf (S i) (T j); rw [hS, hT])
+    (fun i => by show diagInf (S' (eM i)) = diagInf (S i); rw [hS])
+    (fun j => by show diagInf (T' (eN j)) = diagInf (T j); rw [hT]) d
+
+theorem isWs_reindex {M M' N N' : Type} [Fintype M] [Fintype M'] [Fintype N] [Fintype N']
+    (eM : M ≃ M') (eN : N ≃ N') {S : M → Pt} {S' : M' → Pt}
+    {T : N → Pt} {T' : N' → Pt} (hS : ∀ i, S' (eM i) = S i) (hT : ∀ j, T' (eN j) = T j) (w : ℝ) :
+    IsWs S' T' w ↔ IsWs S T w :=
+  isMinSum_reindex_iff eM eN
+    (fun i j => by show euclid (S' (eM i)) (T' (eN j)) = euclid (S i) (T j); rw [hS, hT])
+    (fun i => by show diagL2 (S' (eM i)) = diagL2 (S i); rw [hS])
+    (fun j => by show diagL2 (T' (eN j)) = diagL2 (T j); rw [hT]) w
+
+theorem isBn_congr_list {l1 l1' l2 l2' : List Pt} (h1 : l1 = l1') (h2 : l2 = l2') (d : ℝ) :
+    IsBn l1.get l2.get d ↔ IsBn l1'.get l2'.get d := by subst h1; subst h2; rfl
+
+theorem isWs_congr_list {l1 l1' l2 l2' : List Pt} (h1 : l1 = l1') (h2 : l2 = l2') (w : ℝ) :
+    IsWs l1.get l2.get w ↔ IsWs l1'.get l2'.get w := by subst h1; subst h2; rfl
+
+/-- reordering either list does not change the bottleneck value -/
+theorem isBn_perm {l1 l1' l2 l2' : List Pt} (h1 : l1.Perm l1') (h2 : l2.Perm l2') (d : ℝ) :
+    IsBn l1'.get l2'.get d ↔ IsBn l1.get l2.get d := by
+  obtain ⟨e1, he1⟩ := perm_exists_equiv h1
+  obtain ⟨e2, he2⟩ := perm_exists_equiv h2
+  exact isBn_reindex e1 e2 he1 he2 d
+
+/-- reordering either list does not change the Wasserstein value -/
+theorem isWs_perm {l1 l1' l2 l2' : List Pt} (h1 : l1.Perm l1') (h2 : l2.Perm l2') (w : ℝ) :
+    IsWs l1'.get l2'.get w ↔ IsWs l1.get l2.get w := by
+  obtain ⟨e1, he1⟩ := perm_exists_equiv h1
+  obtain ⟨e2, he2⟩ := perm_exists_equiv h2
+  exact isWs_reindex e1 e2 he1 he2 w
+
+theorem isBn_cons_diag {M : Type} (S : M → Pt) (T : List Pt) (a d : ℝ) :
+    IsBn S ((a, a) :: T).get d ↔ IsBn S T.get d := by
+  rw [← bottleneck_add_diagonal S T.get a d]
+  exact isBn_reindex (Equiv.refl M) (consIdx (a, a) T) (fun _ => rfl) (get_consIdx (a, a) T) d
+
+theorem isWs_cons_diag {M : Type} [Fintype M] [DecidableEq M] (S : M → Pt) (T : List Pt) (a w : ℝ) :
+    IsWs S ((a, a) :: T).get w ↔ IsWs S T.get w := by
+  rw [← wasserstein_add_diagonal S T.get a w]
+  exact isWs_reindex (Equiv.refl M) (consIdx (a, a) T) (fun _ => rfl) (get_consIdx (a, a) T) w
+
+theorem isBn_map (f : Pt → Pt) (l1 l2 : List Pt) (d : ℝ) :
+    IsBn (l1.map f).get (l2.map f).get d ↔ IsBn (fun i => f (l1.get i)) (fun j => f (l2.get j)) d :=
+  isBn_reindex (mapIdx f l1) (mapIdx f l2) (get_mapIdx f l1) (get_mapIdx f l2) d
+
+theorem isWs_map (f : Pt → Pt) (l1 l2 : List Pt) (w : ℝ) :
+    IsWs (l1.map f).get (l2.map f).get w ↔ IsWs (fun i => f (l1.get i)) (fun j => f (l2.get j)) w :=
+  isWs_reindex (mapIdx f l1) (mapIdx f l2) (get_mapIdx f l1) (get_mapIdx f l2) w
+
+/-! ### raw diagrams: finite parts of reordered / extended / transformed inputs -/
+
+/-- the two models keep the same points -/
+theorem finitePart_eq (d : List (ℝ × Option ℝ)) : Bottleneck.finitePart d = Wasserstein.finitePart d := by
+  show List.filterMap _ d = List.filterMap _ d
+  congr 1
+
+theorem finitePart_perm {d d' : List (ℝ × Option ℝ)} (h : d.Perm d') :
+    (Wasserstein.finitePart d).Perm (Wasserstein.finitePart d') := h.filterMap _
+
+theorem finitePart_cons_some (b e : ℝ) (d : List (ℝ × Option ℝ)) :
+    Wasserstein.finitePart ((b, some e) :: d) = (b, e) :: Wasserstein.finitePart d := rfl
+
+/-- apply `f` to every coordinate of a raw diagram (a non-finite death stays non-finite) -/
+def mapDgm (f : ℝ → ℝ) (d : List (ℝ × Option ℝ)) : List (ℝ × Option ℝ) :=
+  d.map fun p => (f p.1, p.2.map f)
+
+/-- the diagram translated along the diagonal: `dgm + t` -/
+def shiftDgm (t : ℝ) : List (ℝ × Option ℝ) → List (ℝ × Option ℝ) := mapDgm (· + t)
+/-- the diagram scaled: `l * dgm` -/
+def scaleDgm (l : ℝ) : List (ℝ × Option ℝ) → List (ℝ × Option ℝ) := mapDgm (l * ·)
+
+theorem finitePart_mapDgm (f : ℝ → ℝ) (d : List (ℝ × Option ℝ)) :
+    Wasserstein.finitePart (mapDgm f d) = (Wasserstein.finitePart d).map fun p => (f p.1, f p.2) := by
+  induction d with
+  | nil => rfl
+  | cons p d ih =>
+    rcases p with ⟨b, _ | e⟩
+    · simpa [mapDgm, Wasserstein.finitePart] using ih
+    · simpa [mapDgm, Wasserstein.finitePart] using ih
+
+theorem properDgm_iff (d : List (ℝ × Option ℝ)) : ProperDgm d ↔ ∀ p ∈ Wasserstein.finitePart d, p.1 ≤ p.2 := by
+  unfold ProperDgm; rw [finitePart_eq]
+
+theorem ProperDgm.perm {d d' : List (ℝ × Option ℝ)} (h : ProperDgm d) (hp : d'.Perm d) : ProperDgm d' := by
+  rw [properDgm_iff] at h ⊢
+  exact fun p hp' => h p ((finitePart_perm hp).subset hp')
+
+theorem ProperDgm.cons_diag {d : List (ℝ × Option ℝ)} (h : ProperDgm d) (a : ℝ) : ProperDgm ((a, some a) :: d) := by
+  rw [properDgm_iff] at h ⊢
+  intro p hp
+  rw [finitePart_cons_some, List.mem_cons] at hp
+  rcases hp with rfl | hp
+  · exact le_refl _
+  · exact h p hp
+
+theorem ProperDgm.shift {d : List (ℝ × Option ℝ)} (h : ProperDgm d) (t : ℝ) : ProperDgm (shiftDgm t d) := by
+  rw [properDgm_iff] at h ⊢
+  intro p hp
+  rw [shiftDgm, finitePart_mapDgm, List.mem_map] at hp
+  obtain ⟨q, hq, rfl⟩ := hp
+  have := h q hq
+  show q.1 + t ≤ q.2 + t
+  linarith
+
+theorem ProperDgm.scale {d : List (ℝ × Option ℝ)} (h : ProperDgm d) {l : ℝ} (hl : 0 ≤ l) : ProperDgm (scaleDgm l d) := by
+  rw [properDgm_iff] at h ⊢
+  intro p hp
+  rw [scaleDgm, finitePart_mapDgm, List.mem_map] at hp
+  obtain ⟨q, hq, rfl⟩ := hp
+  exact mul_le_mul_of_nonneg_left (h q hq) hl
+
+/-- `bnReturns_isBn` phrased with the finite part both models share -/
+theorem bnReturns_isBn' {oracle : Bottleneck.Graph → Bottleneck.Matching} (ho : Bottleneck.OracleMax oracle)
+    {d1 d2 : List (ℝ × Option ℝ)} (h1 : ProperDgm d1) (h2 : ProperDgm d2) {v : ℝ}
+    (h : BnReturns oracle d1 d2 v) :
+    IsBn (Wasserstein.finitePart d1).get (Wasserstein.finitePart d2).get v :=
+  (isBn_congr_list (finitePart_eq d1) (finitePart_eq d2) v).mp (bnReturns_isBn ho h1 h2 h)
+
+/-! ### bottleneck -/
+
+/-- **reordering the inputs does not change the value** (any two oracles) -/
+theorem model_bn_perm_invariant {o o' : Bottleneck.Graph → Bottleneck.Matching} (ho : Bottleneck.OracleMax o)
+    (ho' : Bottleneck.OracleMax o') {d1 d2 d1' d2' : List (ℝ × Option ℝ)} (h1 : ProperDgm d1) (h2 : ProperDgm d2)
+    (p1 : d1'.Perm d1) (p2 : d2'.Perm d2) {v v' : ℝ}
+    (h : BnReturns o d1 d2 v) (h' : BnReturns o' d1' d2' v') : v' = v := by
+  have a := bnReturns_isBn' ho h1 h2 h
+  have b := bnReturns_isBn' ho' (h1.perm p1) (h2.perm p2) h'
+  exact IsBottleneck.unique ((isBn_perm (finitePart_perm p1) (finitePart_perm p2) v').mpr b) a
+
+/-- **zero between a diagram and any reordering of itself** (`List.Perm` form) -/
+theorem model_bn_reorder_zero {o : Bottleneck.Graph → Bottleneck.Matching} (ho : Bottleneck.OracleMax o)
+    {d1 d2 : List (ℝ × Option ℝ)} (h1 : ProperDgm d1) (hp : d1.Perm d2) {v : ℝ}
+    (h : BnReturns o d1 d2 v) : v = 0 :=
+  IsBottleneck.unique (bnReturns_isBn' ho h1 (h1.perm hp.symm) h) (bottleneck_perm_zero_list (finitePart_perm hp))
+
+/-- **a point on the diagonal added anywhere to the second diagram changes nothing** -/
+theorem model_bn_add_diagonal {o o' : Bottleneck.Graph → Bottleneck.Matching} (ho : Bottleneck.OracleMax o)
+    (ho' : Bottleneck.OracleMax o') {d1 d2 d2' : List (ℝ × Option ℝ)} (h1 : ProperDgm d1) (h2 : ProperDgm d2)
+    (a : ℝ) (hp : d2'.Perm ((a, some a) :: d2)) {v v' : ℝ}
+    (h : BnReturns o d1 d2 v) (h' : BnReturns o' d1 d2' v') : v' = v := by
+  have a1 := bnReturns_isBn' ho h1 h2 h
+  have b := bnReturns_isBn' ho' h1 ((h2.cons_diag a).perm hp) h'
+  have b' := (isBn_perm (List.Perm.refl _) (finitePart_perm hp) v').mpr b
+  rw [finitePart_cons_some, isBn_cons_diag] at b'
+  exact IsBottleneck.unique b' a1
+
+/-- … and to the first diagram -/
+theorem model_bn_add_diagonal_left {o o' : Bottleneck.Graph → Bottleneck.Matching} (ho : Bottleneck.OracleMax o)
+    (ho' : Bottleneck.OracleMax o') {d1 d1' d2 : List (ℝ × Option ℝ)} (h1 : ProperDgm d1) (h2 : ProperDgm d2)
+    (a : ℝ) (hp : d1'.Perm ((a, some a) :: d1)) {v v' : ℝ}
+    (h : BnReturns o d1 d2 v) (h' : BnReturns o' d1' d2 v') : v' = v := by
+  have a1 := bottleneck_symm _ _ (bnReturns_isBn' ho h1 h2 h)
+  have b := bottleneck_symm _ _ (bnReturns_isBn' ho' ((h1.cons_diag a).perm hp) h2 h')
+  have b' := (isBn_perm (List.Perm.refl _) (finitePart_perm hp) v').mpr b
+  rw [finitePart_cons_some, isBn_cons_diag] at b'
+  exact IsBottleneck.unique b' a1
+
+/-- **translating both diagrams along the diagonal changes nothing** -/
+theorem model_bn_translate {o o' : Bottleneck.Graph → Bottleneck.Matching} (ho : Bottleneck.OracleMax o)
+    (ho' : Bottleneck.OracleMax o') {d1 d2 : List (ℝ × Option ℝ)} (h1 : ProperDgm d1) (h2 : ProperDgm d2)
+    (t : ℝ) {v v' : ℝ} (h : BnReturns o d1 d2 v) (h' : BnReturns o' (shiftDgm t d1) (shiftDgm t d2) v') :
+    v' = v := by
+  have a := bnReturns_isBn' ho h1 h2 h
+  have b := bnReturns_isBn' ho' (h1.shift t) (h2.shift t) h'
+  rw [shiftDgm, finitePart_mapDgm, finitePart_mapDgm, isBn_map] at b
+  exact IsBottleneck.unique ((bottleneck_translate _ _ t v').mp b) a
+
+/-- **scaling both diagrams by `l > 0` scales the value by `l`** -/
+theorem model_bn_scale {o o' : Bottleneck.Graph → Bottleneck.Matching} (ho : Bottleneck.OracleMax o)
+    (ho' : Bottleneck.OracleMax o') {d1 d2 : List (ℝ × Option ℝ)} (h1 : ProperDgm d1) (h2 : ProperDgm d2)
+    {l : ℝ} (hl : 0 < l) {v v' : ℝ} (h : BnReturns o d1 d2 v) (h' : BnReturns o' (scaleDgm l d1) (scaleDgm l d2) v') :
+    v' = l * v := by
+  have a := bottleneck_scale _ _ hl (bnReturns_isBn' ho h1 h2 h)
+  have b := bnReturns_isBn' ho' (h1.scale hl.le) (h2.scale hl.le) h'
+  rw [scaleDgm, finitePart_mapDgm, finitePart_mapDgm, isBn_map] at b
+  exact IsBottleneck.unique b a
+
+/-- **against a diagram without finite points** (empty, or only non-finite deaths): the value is the
+    least `v ≥ 0` above every `(d - b)/2`, i.e. `max(0, max persistence / 2)` -/
+theorem model_bn_vs_empty {o : Bottleneck.Graph → Bottleneck.Matching} (ho : Bottleneck.OracleMax o)
+    {d1 d2 : List (ℝ × Option ℝ)} (h1 : ProperDgm d1) (hE : Wasserstein.finitePart d2 = []) {v : ℝ}
+    (h : BnReturns o d1 d2 v) :
+    (0 ≤ v ∧ ∀ p ∈ Wasserstein.finitePart d1, (p.2 - p.1) / 2 ≤ v) ∧
+      ∀ v', 0 ≤ v' → (∀ p ∈ Wasserstein.finitePart d1, (p.2 - p.1) / 2 ≤ v') → v ≤ v' := by
+  have h2 : ProperDgm d2 := by rw [properDgm_iff, hE]; intro p hp; cases hp
+  have a := bnReturns_isBn' ho h1 h2 h
+  have a' := (isBn_congr_list rfl hE v).mp a
+  have : IsEmpty (Fin ([] : List Pt).length) := inferInstanceAs (IsEmpty (Fin 0))
+  rw [bottleneck_vs_empty] at a'
+  obtain ⟨⟨h0, hub⟩, hl⟩ := a'
+  refine ⟨⟨h0, fun p hp => ?_⟩, fun v' hv0 hv' => hl v' hv0 fun i => hv' _ (List.get_mem _ i)⟩
+  obtain ⟨i, rfl⟩ := List.get_of_mem hp
+  exact hub i
+
+/-! ### Wasserstein -/
+
+theorem wsReturns_proper {d : Wasserstein.Dgm ℝ} (h : ∀ p ∈ Wasserstein.finitePart d, p.1 ≤ p.2) :
+    Proper (Wasserstein.finitePart d).get := fun i => h _ (List.get_mem _ i)
+
+/-- **non-negativity** -/
+theorem model_ws_nonneg {l : Wasserstein.Mat ℝ → List (Nat × Nat)} (hl : WsLemmas.LsaContract l)
+    {d1 d2 : Wasserstein.Dgm ℝ} (h1 : ProperDgm d1) (h2 : ProperDgm d2) {w : ℝ} (h : WsReturns l d1 d2 w) :
+    0 ≤ w :=
+  wasserstein_nonneg _ _ (wsReturns_proper ((properDgm_iff d1).mp h1)) (wsReturns_proper ((properDgm_iff d2).mp h2))
+    (wsReturns_isWs hl h)
+
+/-- **reordering the inputs does not change the value** (any two solvers) -/
+theorem model_ws_perm_invariant {l l' : Wasserstein.Mat ℝ → List (Nat × Nat)} (hl : WsLemmas.LsaContract l)
+    (hl' : WsLemmas.LsaContract l') {d1 d2 d1' d2' : Wasserstein.Dgm ℝ}
+    (p1 : d1'.Perm d1) (p2 : d2'.Perm d2) {w w' : ℝ}
+    (h : WsReturns l d1 d2 w) (h' : WsReturns l' d1' d2' w') : w' = w :=
+  IsMinSum.unique ((isWs_perm (finitePart_perm p1) (finitePart_perm p2) w').mpr (wsReturns_isWs hl' h'))
+    (wsReturns_isWs hl h)
+
+/-- **zero between a diagram and any reordering of itself** (`List.Perm` form) -/
+theorem model_ws_reorder_zero {l : Wasserstein.Mat ℝ → List (Nat × Nat)} (hl : WsLemmas.LsaContract l)
+    {d1 d2 : Wasserstein.Dgm ℝ} (h1 : ProperDgm d1) (hp : d1.Perm d2) {w : ℝ}
+    (h : WsReturns l d1 d2 w) : w = 0 :=
+  IsMinSum.unique (wsReturns_isWs hl h)
+    (wasserstein_perm_zero_list (finitePart_perm hp) ((properDgm_iff d1).mp h1))
+
+/-- **a point on the diagonal added anywhere to the second diagram changes nothing** -/
+theorem model_ws_add_diagonal {l l' : Wasserstein.Mat ℝ → List (Nat × Nat)} (hl : WsLemmas.LsaContract l)
+    (hl' : WsLemmas.LsaContract l') {d1 d2 d2' : Wasserstein.Dgm ℝ}
+    (a : ℝ) (hp : d2'.Perm ((a, some a) :: d2)) {w w' : ℝ}
+    (h : WsReturns l d1 d2 w) (h' : WsReturns l' d1 d2' w') : w' = w := by
+  have b' := (isWs_perm (List.Perm.refl _) (finitePart_perm hp) w').mpr (wsReturns_isWs hl' h')
+  rw [finitePart_cons_some, isWs_cons_diag] at b'
+  exact IsMinSum.unique b' (wsReturns_isWs hl h)
+
+/-- … and to the first diagram -/
+theorem model_ws_add_diagonal_left {l l' : Wasserstein.Mat ℝ → List (Nat × Nat)} (hl : WsLemmas.LsaContract l)
+    (hl' : WsLemmas.LsaContract l') {d1 d1' d2 : Wasserstein.Dgm ℝ}
+    (a : ℝ) (hp : d1'.Perm ((a, some a) :: d1)) {w w' : ℝ}
+    (h : WsReturns l d1 d2 w) (h' : WsReturns l' d1' d2 w') : w' = w := by
+  have b' := (isWs_perm (List.Perm.refl _) (finitePart_perm hp) w').mpr
+    (wasserstein_symm _ _ (wsReturns_isWs hl' h'))
+  rw [finitePart_cons_some, isWs_cons_diag] at b'
+  exact IsMinSum.unique b' (wasserstein_symm _ _ (wsReturns_isWs hl h))
+
+/-- **translating both diagrams along the diagonal changes nothing** -/
+theorem model_ws_translate {l l' : Wasserstein.Mat ℝ → List (Nat × Nat)} (hl : WsLemmas.LsaContract l)
+    (hl' : WsLemmas.LsaContract l') {d1 d2 : Wasserstein.Dgm ℝ}
+    (t : ℝ) {w w' : ℝ} (h : WsReturns l d1 d2 w) (h' : WsReturns l' (shiftDgm t d1) (shiftDgm t d2) w') :
+    w' = w := by
+  have b := wsReturns_isWs hl' h'
+  rw [shiftDgm, finitePart_mapDgm, finitePart_mapDgm, isWs_map] at b
+  exact IsMinSum.unique ((wasserstein_translate _ _ t w').mp b) (wsReturns_isWs hl h)
+
+/-- **scaling both diagrams by `c ≥ 0` scales the value by `c`** -/
+theorem model_ws_scale {l l' : Wasserstein.Mat ℝ → List (Nat × Nat)} (hl : WsLemmas.LsaContract l)
+    (hl' : WsLemmas.LsaContract l') {d1 d2 : Wasserstein.Dgm ℝ}
+    {c : ℝ} (hc : 0 ≤ c) {w w' : ℝ} (h : WsReturns l d1 d2 w) (h' : WsReturns l' (scaleDgm c d1) (scaleDgm c d2) w') :
+    w' = c * w := by
+  have b := wsReturns_isWs hl' h'
+  rw [scaleDgm, finitePart_mapDgm, finitePart_mapDgm, isWs_map] at b
+  exact IsMinSum.unique b (wasserstein_scale _ _ hc (wsReturns_isWs hl h))
+
+/-- **against a diagram without finite points: total persistence / √2** -/
+theorem model_ws_vs_empty {l : Wasserstein.Mat ℝ → List (Nat × Nat)} (hl : WsLemmas.LsaContract l)
+    {d1 d2 : Wasserstein.Dgm ℝ} (hE : Wasserstein.finitePart d2 = []) {w : ℝ}
+    (h : WsReturns l d1 d2 w) :
+    w = ((Wasserstein.finitePart d1).map fun p => (p.2 - p.1) / Real.sqrt 2).sum := by
+  have a := (isWs_congr_list rfl hE w).mp (wsReturns_isWs hl h)
+  have : IsEmpty (Fin ([] : List Pt).length) := inferInstanceAs (IsEmpty (Fin 0))
+  have e := IsMinSum.unique a (wasserstein_vs_empty (Wasserstein.finitePart d1).get ([] : List Pt).get)
+  rw [e]
+  simp only [List.get_eq_getElem]
+  exact Fin.sum_univ_fun_getElem (Wasserstein.finitePart d1) fun p => (p.2 - p.1) / Real.sqrt 2
+
+/-- **the bottleneck value never exceeds the Wasserstein value** (same inputs, any oracle / solver) -/
+theorem model_bn_le_ws {o : Bottleneck.Graph → Bottleneck.Matching} (ho : Bottleneck.OracleMax o)
+    {l : Wasserstein.Mat ℝ → List (Nat × Nat)} (hl : WsLemmas.LsaContract l)
+    {d1 d2 : List (ℝ × Option ℝ)} (h1 : ProperDgm d1) (h2 : ProperDgm d2) {v w : ℝ}
+    (hb : BnReturns o d1 d2 v) (hw : WsReturns l d1 d2 w) : v ≤ w :=
+  bottleneck_le_wasserstein _ _ (wsReturns_proper ((properDgm_iff d1).mp h1)) (wsReturns_proper ((properDgm_iff d2).mp h2))
+    (bnReturns_isBn' ho h1 h2 hb) (wsReturns_isWs hl hw)
+
+/-! ### non-vacuity: the hypotheses are met by concrete non-trivial inputs, and the runs exist -/
+
+/-- two proper points and a point of infinite death -/
+def dgmA : List (ℝ × Option ℝ) := [(0, some 3), (1, some 4), (2, none)]
+/-- a proper point -/
+def dgmB : List (ℝ × Option ℝ) := [(1, some 2)]
+
+theorem dgmA_proper : ProperDgm dgmA := by
+  rw [properDgm_iff]; intro p hp
+  simp [dgmA, Wasserstein.finitePart] at hp
+  rcases hp with rfl | rfl <;> norm_num
+
+theorem dgmB_proper : ProperDgm dgmB := by
+  rw [properDgm_iff]; intro p hp
+  simp [dgmB, Wasserstein.finitePart] at hp
+  subst hp; norm_num
+
+-- reorder: a genuinely different order of `dgmA`; the run exists and returns 0
+example : ∃ (o : Bottleneck.Graph → Bottleneck.Matching) (v : ℝ), Bottleneck.OracleMax o ∧ ProperDgm dgmA ∧
+    dgmA.Perm dgmA.reverse ∧ BnReturns o dgmA dgmA.reverse v ∧ v = 0 := by
+  obtain ⟨o, ho⟩ := C01.oracleMax_exists
+  have hp : dgmA.Perm dgmA.reverse := (List.reverse_perm dgmA).symm
+  obtain ⟨v, hv, -⟩ := model_bn_is_spec ho dgmA_proper (dgmA_proper.perm hp.symm)
+  exact ⟨o, v, ho, dgmA_proper, hp, hv, model_bn_reorder_zero ho dgmA_proper hp hv⟩
+
+-- added diagonal point (inserted in the middle), translation, scaling: all runs exist
+example : ∃ (o : Bottleneck.Graph → Bottleneck.Matching) (v v1 v2 v3 : ℝ), Bottleneck.OracleMax o ∧
+    BnReturns o dgmA dgmB v ∧ BnReturns o dgmA ((1, some 2) :: (5, some 5) :: []) v1 ∧
+    BnReturns o (shiftDgm 7 dgmA) (shiftDgm 7 dgmB) v2 ∧ BnReturns o (scaleDgm 3 dgmA) (scaleDgm 3 dgmB) v3 ∧
+    v1 = v ∧ v2 = v ∧ v3 = 3 * v := by
+  obtain ⟨o, ho⟩ := C01.oracleMax_exists
+  have hp : ((1, some 2) :: (5, some 5) :: [] : List (ℝ × Option ℝ)).Perm ((5, some 5) :: dgmB) := List.Perm.swap _ _ _
+  obtain ⟨v, hv, -⟩ := model_bn_is_spec ho dgmA_proper dgmB_proper
+  obtain ⟨v1, hv1, -⟩ := model_bn_is_spec ho dgmA_proper ((dgmB_proper.cons_diag 5).perm hp)
+  obtain ⟨v2, hv2, -⟩ := model_bn_is_spec ho (dgmA_proper.shift 7) (dgmB_proper.shift 7)
+  obtain ⟨v3, hv3, -⟩ := model_bn_is_spec ho (dgmA_proper.scale (l := 3) (by norm_num)) (dgmB_proper.scale (l := 3) (by norm_num))
+  exact ⟨o, v, v1, v2, v3, ho, hv, hv1, hv2, hv3,
+    model_bn_add_diagonal ho ho dgmA_proper dgmB_proper 5 hp hv hv1,
+    model_bn_translate ho ho dgmA_proper dgmB_proper 7 hv hv2,
+    model_bn_scale ho ho dgmA_proper dgmB_proper (by norm_num) hv hv3⟩
+
+-- against a side that is emptied by the filter, and bottleneck ≤ Wasserstein, with existing runs
+example : ∃ (o : Bottleneck.Graph → Bottleneck.Matching) (l : Wasserstein.Mat ℝ → List (Nat × Nat)) (v w v0 w0 : ℝ),
+    BnReturns o dgmA dgmB v ∧ WsReturns l dgmA dgmB w ∧ v ≤ w ∧
+    BnReturns o dgmA [(9, none)] v0 ∧ WsReturns l dgmA [(9, none)] w0 ∧
+    w0 = (3 - 0) / Real.sqrt 2 + ((4 - 1) / Real.sqrt 2 + 0) := by
+  obtain ⟨o, ho⟩ := C01.oracleMax_exists
+  obtain ⟨l, hl⟩ := C02.lsaContract_satisfiable (K := ℝ)
+  have hE : ProperDgm [((9 : ℝ), (none : Option ℝ))] := by
+    rw [properDgm_iff]; intro p hp; simp [Wasserstein.finitePart] at hp
+  obtain ⟨v, hv, -⟩ := model_bn_is_spec ho dgmA_proper dgmB_proper
+  obtain ⟨w, hw, -⟩ := model_ws_is_spec hl dgmA dgmB
+  obtain ⟨v0, hv0, -⟩ := model_bn_is_spec ho dgmA_proper hE
+  obtain ⟨w0, hw0, -⟩ := model_ws_is_spec hl dgmA [(9, none)]
+  refine ⟨o, l, v, w, v0, w0, hv, hw, model_bn_le_ws ho hl dgmA_proper dgmB_proper hv hw, hv0, hw0, ?_⟩
+  rw [model_ws_vs_empty hl (d2 := [(9, none)]) rfl hw0]
+  simp [dgmA, Wasserstein.finitePart]
 
 end
 
